@@ -58,6 +58,53 @@ Section Spec.
       | _ => match tr' with [] => true | _ => false end
       end
     end.
+
+  (** * The unguarded classes driven outside their documented key precondition (C09/UnguardedGeneral.v; this is how
+      multiway_merge_loser_tree_combined uses them): keys may exceed the sentinel, the caller consults the tree only
+      while some current key still beats the sentinel (stable: is not greater; unstable: is strictly less), and stops
+      when the winner's sequence would run empty. *)
+  Variable dkey : A.
+
+  Definition beatsb (v : variant) (sentinel k : A) : bool :=
+    if v_stable v then negb (ltb sentinel k) else ltb k sentinel.
+
+  Definition some_beats (v : variant) (sentinel : A) (seqs : list (list A)) : bool :=
+    existsb (fun sq => match sq with k :: _ => beatsb v sentinel k | [] => false end) seqs.
+
+  Fixpoint drive_g (v : variant) (sentinel : A) (fuel : nat) (t : tree) (seqs : list (list A)) : list N :=
+    if some_beats v sentinel seqs then
+      let s := lt_min_source dkey v t in
+      s :: match fuel with
+           | O => []
+           | S f =>
+             match nthN seqs s with
+             | Some (_ :: rest) =>
+               match rest with
+               | [] => []
+               | y :: _ => drive_g v sentinel f (lt_delete_min_insert ltb dkey v t (Some y)) (setN seqs s rest)
+               end
+             | _ => []
+             end
+           end
+    else [].
+
+  Definition lt_run_g (v : variant) (sentinel : A) (seqs : list (list A)) : list N :=
+    drive_g v sentinel (S (length (concat seqs))) (lt_build ltb dkey v sentinel (map (@hd_error A) seqs)) seqs.
+
+  Fixpoint check_trace_g (v : variant) (sentinel : A) (seqs : list (list A)) (tr : list N) : bool :=
+    match tr with
+    | [] => negb (some_beats v sentinel seqs)
+    | s :: tr' =>
+      some_beats v sentinel seqs && check_min (v_stable v) (heads seqs) s &&
+      match nthN seqs s with
+      | Some (_ :: rest) =>
+        match rest with
+        | [] => match tr' with [] => true | _ => false end
+        | _ :: _ => check_trace_g v sentinel (setN seqs s rest) tr'
+        end
+      | _ => match tr' with [] => true | _ => false end
+      end
+    end.
 End Spec.
 
 (** Instances run by the correspondence driver: keys are numbers, cmp_ = std::less, ValueType() = 0. *)
@@ -65,3 +112,7 @@ Definition run_N (v : variant) (sentinel : N) (seqs : list (list N)) : list N :=
   lt_run N.ltb 0 v sentinel seqs.
 Definition check_N (v : variant) (seqs : list (list N)) (tr : list N) : bool :=
   check_trace N.ltb v seqs tr.
+Definition run_gN (v : variant) (sentinel : N) (seqs : list (list N)) : list N :=
+  lt_run_g N.ltb 0 v sentinel seqs.
+Definition check_gN (v : variant) (sentinel : N) (seqs : list (list N)) (tr : list N) : bool :=
+  check_trace_g N.ltb v sentinel seqs tr.
